@@ -214,12 +214,15 @@ func (w *World) checkCommitted(h int64, res *BlockResult, block *tmtypes.Block, 
 			sumBal.Add(sumBal, bal)
 			mb := wAt.GetBalance(common.Address(addr))
 			if bal.Cmp(mb) != 0 {
-				w.violate("diff.balance", f.propsFor("balance", &addr), h, "account %s: node %s, model %s (delta %s)", addr.Hex(), bal, mb, new(big.Int).Sub(bal, mb))
+				v := w.violate("diff.balance", f.propsFor("balance", &addr), h, "account %s: node %s, model %s (delta %s)", addr.Hex(), bal, mb, new(big.Int).Sub(bal, mb))
+				if m.Destroyed[addr] && mb.Sign() == 0 {
+					v.Shape = "selfdestruct-native-residue"
+				}
 			}
 			if mn := wAt.GetNonce(common.Address(addr)); a.Nonce != mn {
 				v := w.violate("diff.nonce", f.propsFor("nonce", &addr), h, "account %s: node nonce %d, model %d", addr.Hex(), a.Nonce, mn)
 				if m.Destroyed[addr] && mn == 0 {
-					v.Shape = "selfdestruct-native-nonce"
+					v.Shape = "selfdestruct-native-residue"
 				}
 			}
 			mm := snap.Meta[addr]
